@@ -37,7 +37,7 @@ func init() {
 				return 1_500_000
 			}, Run: c06Arc,
 				Min: map[string]int64{"arcs": 100000, "relative": 20000, "absolute": 20000, "scaled_up_radii": 10000, "large_arc": 20000, "sweep_positive": 20000, "sweep_negative": 20000,
-					"zero_radius": 5000, "exact_semicircles": 2000, "reset_before_setrasterizer": 50000, "rectangle_changed_after_reset": 50000, "renderer_used_for_an_earlier_graphic": 50000, "lattice_mode": 20000, "lattice_endpoint_equals_pen_pixels": 5000, "cubics_1": 1000, "cubics_2": 1000, "cubics_3": 1000, "cubics_4": 1000, "negative_radius": 5000, "through_destination_logger": 50000, "last_arc_of_an_encoded_run": 100000, "encoded_run_position_above_16": 30000}},
+					"zero_radius": 5000, "exact_semicircles": 2000, "exact_quarter_circles": 2000, "reset_before_setrasterizer": 50000, "rectangle_changed_after_reset": 50000, "renderer_used_for_an_earlier_graphic": 50000, "lattice_mode": 20000, "lattice_endpoint_equals_pen_pixels": 5000, "cubics_1": 1000, "cubics_2": 1000, "cubics_3": 1000, "cubics_4": 1000, "negative_radius": 5000, "through_destination_logger": 50000, "last_arc_of_an_encoded_run": 100000, "encoded_run_position_above_16": 30000}},
 		},
 	})
 }
@@ -141,6 +141,15 @@ func c06Arc(c *run.Ctx, idx uint64) {
 		rx, ry = float32(py[2])/2, float32(py[2])/2
 		d = float64(py[2])
 		c.Count("exact_semicircles", 1)
+	}
+	if lattice && !semicircle && r.Chance(1, 4) {
+		// exact quarter (or three-quarter) circles: the sweep is a multiple of pi/2,
+		// the boundary at which the number of cubic segments changes
+		rho := float32(r.Range(1, 20))
+		ex, ey = x0+float32(r.Pick(-1, 1))*rho, y0+float32(r.Pick(-1, 1))*rho
+		rx, ry = rho, rho
+		d = float64(rho) * math.Sqrt2
+		c.Count("exact_quarter_circles", 1)
 	}
 	if r.Chance(1, 4) {
 		rx = -rx
